@@ -239,10 +239,13 @@ class Widths:
 
 
 class Engine:
+    py_bool_negations = None
+
     def __init__(self, widths, ctx):
         self.w = widths
         self.ctx = ctx
         self.atom_ir = {}
+        self.py_bool_negations = []
 
     def norm(self, e):
         return ir.norm(e, self.ctx)
@@ -258,6 +261,38 @@ class Engine:
         key = ir.show(e)
         self.atom_ir[key] = e
         return ('atom', key)
+
+    def may_be_signal(self, e):
+        for x in ir.walk(e):
+            if x[0] in ('sig', 'carry', 'final', 'acc'):
+                return True
+            if x[0] == 'attr' and (x[2] in PROTOCOL_BITS or x[2] in Widths.DATA_ATTRS or self.w.is_signal(x) or
+                                   (x[2] in self.w.global_bits)):
+                return True
+            if x[0] == 'call' and x[1][0] == 'name' and x[1][1] in ("Cat", "Mux", "Const", "C", "Signal", "Repl"):
+                return True
+            if x[0] == 'call' and x[1][0] == 'attr' and x[1][2] in ("any", "all", "bool", "replicate", "as_unsigned", "as_signed"):
+                return True
+        return False
+
+    def py_bool(self, e):
+        """An expression that is a Python bool at generation time (not an Amaranth value)."""
+        k = e[0]
+        if k == 'has':
+            return True
+        if k == 'const':
+            return isinstance(e[1], bool)
+        if k == 'un' and e[1] == 'not':
+            return True
+        if k in ('and', 'or'):
+            return all(self.py_bool(x) for x in e[1])
+        if k == 'cmp':
+            if e[1] in ('is', 'in'):
+                return True
+            return not self.may_be_signal(e[2]) and not self.may_be_signal(e[3])
+        if k == 'call' and e[1] in (('name', 'isinstance'), ('name', 'callable'), ('name', 'bool')):
+            return not self.may_be_signal(e)
+        return False
 
     def cond(self, e):
         """Boolean formula of a guard expression (Amaranth truthiness: value != 0)."""
@@ -276,6 +311,10 @@ class Engine:
             return f_and(*[self._b(x, True) for x in e[1]])
         if k == 'or':
             return f_or(*[self._b(x, True) for x in e[1]])
+        if k == 'un' and e[1] == '~' and self.py_bool(e[2]):
+            # ~True == -2 and ~False == -1: bitwise negation of a *Python* boolean is always truthy
+            self.py_bool_negations.append(e)
+            return T
         if k == 'un' and e[1] == '~' and self.w.bit(e[2]):
             return f_not(self._b(e[2]))
         if k == 'nary' and e[1] in ('&', '|', '^') and all(self.w.bit(x) for x in e[2]):
